@@ -1,5 +1,4 @@
-"""xtuml/load.py -> lean/Gen/SqlLex.lean  (C01, C12)
-
+"""xtuml/load.py -> lean/Gen/SqlLex.lean:
 Read with `ast` only (the repository is never imported):
   * ModelLoader.reserved            -> inductive Kw (+ Kw.all, Kw.chars)
   * ModelLoader.tokens              -> tokenNames
